@@ -1772,6 +1772,24 @@ class Body:
                 src, spr = rv[1]
                 if not [x for x in spr if x != "*"] and (src, "variant") in d:
                     d[(loc, ())] = d[(src, "variant")]
+            elif rv[0] == "bin":
+                def val(o):
+                    c0 = const_of(o)
+                    if c0 is not None:
+                        return c0
+                    if o[0] in ("c", "m"):
+                        fp0 = self._fpath(o[1][1])
+                        if fp0 is not None:
+                            return d.get((o[1][0], fp0))
+                    return None
+                a_, b_ = val(rv[2]), val(rv[3])
+                if a_ is not None and b_ is not None:
+                    a_i, b_i = int(a_), int(b_)
+                    res = {"Eq": a_i == b_i, "Ne": a_i != b_i, "Lt": a_i < b_i, "Le": a_i <= b_i, "Gt": a_i > b_i, "Ge": a_i >= b_i}.get(rv[1])
+                    if res is None and rv[1] in ("BitAnd", "BitOr", "BitXor") and isinstance(a_, bool) and isinstance(b_, bool):
+                        res = {"BitAnd": a_ and b_, "BitOr": a_ or b_, "BitXor": a_ != b_}[rv[1]]
+                    if res is not None:
+                        d[(loc, ())] = res
             elif rv[0] == "un" and rv[1] == "Not":
                 o = rv[2]
                 if o[0] in ("c", "m") and not o[1][1] and (o[1][0], ()) in d and isinstance(d[(o[1][0], ())], bool):
@@ -1829,6 +1847,41 @@ class Body:
         if cap <= 0:
             return self.reachable_from(list(start_blocks))
         return blocks
+
+    def eval_const(self, args, cap=20000):
+        """Evaluate this (small, pure) function on constant arguments: {parameter index: constant} -> set of possible results (None = not a constant).
+        However the function is written - `==` chains, `match`, `matches!`, helper calls spliced in - only its value on the given input counts."""
+        out = set()
+        env0 = tuple(sorted((((i, ()), v) for i, v in args.items()), key=repr))
+        seen = set()
+        dq = deque([(0, env0)])
+        exits = set(self.exits())
+        while dq and cap > 0:
+            cap -= 1
+            b, env = dq.popleft()
+            if (b, env) in seen:
+                continue
+            seen.add((b, env))
+            d = self._cp_transfer(b, env)
+            if b in exits:
+                out.add(d.get((0, ())))
+                continue
+            t = self.term(b)
+            succs = self.succ[b]
+            if t["k"] == "switch":
+                p_ = op_place(t["discr"])
+                if p_ is not None and not p_[1] and (p_[0], ()) in d:
+                    val = d[(p_[0], ())]
+                    val = int(val) if isinstance(val, bool) else val
+                    hit = [tb for v_, tb in t["arms"] if (int(v_) if isinstance(v_, str) else v_) == val]
+                    succs = hit[:1] if hit else [t["otherwise"]]
+            env2 = tuple(sorted(d.items(), key=repr))
+            for s_ in succs:
+                if not self.is_cleanup(s_):
+                    dq.append((s_, env2))
+        if cap <= 0:
+            out.add(None)
+        return out
 
     def const_values(self, start_blocks, target_block, operand, cap=40000):
         """The set of constant values `operand` can have on arrival at the terminator of `target_block`, over the paths from start_blocks (values
